@@ -588,6 +588,13 @@ func (c *towerChk) checkType(tt *towerType) {
 		call := func(z reflect.Value, args ...reflect.Value) (out []reflect.Value, pn string) {
 			pn = Guard(func() { out = z.MethodByName(name).Call(args) })
 			c.n++
+			if c.r.ObsMode() { // engine K: everything computed is folded into the per-group digest
+				if pn != "" {
+					c.r.ObserveStr(c.g, "panic")
+				} else if z.Kind() == reflect.Ptr && z.Type().Elem() == tt.rt {
+					c.r.Observe(c.g, FlattenBytes(z.Interface()))
+				}
+			}
 			return
 		}
 		un := func(model func(x []*big.Int) []*big.Int, dom []namedElt) {
